@@ -74,6 +74,7 @@ OPNMIDIplay::OPNMIDIplay(unsigned long sampleRate) :
 
     m_setup.emulator = opn2_getLowestEmulator();
     m_setup.runAtPcmRate = false;
+    m_setup.loopHooksOnly = false;
 
     m_setup.PCM_RATE = sampleRate;
     m_setup.mindelay = 1.0 / static_cast<double>(m_setup.PCM_RATE);
@@ -166,7 +167,7 @@ void OPNMIDIplay::applySetup()
     m_sequencerInterface->onloopStart_userData = synth.m_loopStartHook ? synth.m_loopStartHookData : hooks.onLoopStart_userData;
     m_sequencerInterface->onloopEnd = synth.m_loopEndHook ? synth.m_loopEndHook : hooks.onLoopEnd;
     m_sequencerInterface->onloopEnd_userData = synth.m_loopEndHook ? synth.m_loopEndHookData : hooks.onLoopEnd_userData;
-    m_sequencer->setLoopHooksOnly(synth.m_loopStartHook != NULL);
+    m_sequencer->setLoopHooksOnly(synth.m_loopStartHook != NULL || m_setup.loopHooksOnly);
 #endif
     // Reset the arpeggio counter
     m_arpeggioCounter = 0;
@@ -197,7 +198,7 @@ void OPNMIDIplay::partialReset()
     m_sequencerInterface->onloopStart_userData = synth.m_loopStartHook ? synth.m_loopStartHookData : hooks.onLoopStart_userData;
     m_sequencerInterface->onloopEnd = synth.m_loopEndHook ? synth.m_loopEndHook : hooks.onLoopEnd;
     m_sequencerInterface->onloopEnd_userData = synth.m_loopEndHook ? synth.m_loopEndHookData : hooks.onLoopEnd_userData;
-    m_sequencer->setLoopHooksOnly(synth.m_loopStartHook != NULL);
+    m_sequencer->setLoopHooksOnly(synth.m_loopStartHook != NULL || m_setup.loopHooksOnly);
 #endif
 }
 
